@@ -336,6 +336,26 @@ def run(ctx, model_ok):
                                 'expected': {d[0]: d[1] for d in diff} or 'the decoded record', 'actual': {d[0]: d[2] for d in diff} or r2,
                                 'why': 'decoded record differs from: present keys carry their (converted) values, absent keys keep '
                                        'their defaults (the record was read from a dump whose thread map declares its thread)'})
+    # records whose equal time-zone sub-dictionaries are one shared object (as a binary plist may hold them): decoding reads
+    # the record, it does not consume it
+    aidx = [i for i, (mode, st, ev) in enumerate(gens) if mode != 'malformed' and 'ok' in res[i]][:(80 if ctx.quick() else 1500)]
+    areq = []
+    for i in aidx:
+        _, st, ev = gens[i]
+        d = dict(ev)
+        ev2 = list(ev)
+        if 'utz' in d:
+            for k in ('lsutz', 'leutz'):
+                ev2 = [(kk, vv) for kk, vv in ev2 if kk != k] + [(k, d['utz'])]
+        areq.append({'strings': [[j, s] for j, s in enumerate(st)], 'event': Dd(ev2), 'alias': True})
+        areq.append({'strings': [[j, s] for j, s in enumerate(st)], 'event': Dd(ev2)})
+    ares = vlib.run_impl('run_oslog.py', {'cases': areq})['results'] if areq else []
+    ctx.evaluations += len(areq)
+    for k in range(0, len(ares), 2):
+        if ares[k] != ares[k + 1]:
+            ctx.failing.append({'input': {'event': areq[k]['event'], 'equal_sub_dictionaries_are_one_object': True},
+                                'expected': ares[k + 1].get('ok', ares[k + 1]), 'actual': ares[k].get('ok', ares[k]),
+                                'why': 'decoded record differs when equal sub-dictionaries of the raw record are one shared object'})
     cases = []
     keyset = {k for k, _, _ in x['optional']}
     field_of = {k: f for k, f, _ in x['mandatory'] + x['optional']}
